@@ -709,6 +709,52 @@ pub fn walk_end(w: &Walk) -> Pos {
     realize_walk(w).0.pop().unwrap()
 }
 
+/// Greedy walk towards a terminal position: at every ply play the move that leaves the
+/// opponent the fewest legal replies (ties broken by the selector). Ends early on mate/stalemate.
+pub fn seek_terminal(start: &Pos, sels: &[u16]) -> Pos {
+    let mut p = start.clone();
+    for s in sels {
+        let legal = p.legal_moves();
+        if legal.is_empty() {
+            break;
+        }
+        let mut best: Vec<Mv> = Vec::new();
+        let mut best_n = usize::MAX;
+        for m in &legal {
+            let n = p.make(m).legal_moves().len();
+            if n < best_n {
+                best_n = n;
+                best.clear();
+            }
+            if n == best_n {
+                best.push(*m);
+            }
+        }
+        let m = select(&best, *s);
+        p = p.make(&m);
+    }
+    p
+}
+
+/// Positions that are checkmate or stalemate far more often than any placement: a cage or
+/// few-piece set-up followed by a greedy walk that shrinks the opponent's options.
+pub fn terminal_biased() -> BoxedStrategy<String> {
+    (
+        prop_oneof![
+            3 => cage_theme().prop_map(|r| build(&r)),
+            2 => endgame(3).prop_map(|r| build(&r)),
+            1 => placement(8).prop_map(|r| build(&r)),
+        ],
+        prop::collection::vec(any::<u16>(), 1..7),
+    )
+        .prop_map(|(p, sels)| {
+            let mut q = seek_terminal(&p, &sels);
+            q.half = 0;
+            q.fen()
+        })
+        .boxed()
+}
+
 pub fn standard_fens() -> Vec<String> {
     STANDARD.iter().map(|x| x.1.to_string()).collect()
 }
